@@ -563,7 +563,7 @@ EXEMPT_ENTRY = {'__init__': 'object not yet shared between threads',
 
 
 @rule('C02.R7', 'the shared data-file handle is only used under the storage '
-      'lock; lock-free loads use a pooled handle', props=['C08', 'C06'],
+      'lock; lock-free loads use a pooled handle', props=['C08', 'C06', 'C15'],
       min_instances=30)
 def r7(R):
     cls = R.prog.cls(FS)
@@ -940,7 +940,13 @@ def r9(R):
         cls = R.prog.cls(q)
         outer = R.method(cls, 'tpc_finish')
         nf = nested_function(R, outer, 'invalidate_finish')
-        R.require(nf is not None, '%s: callback closure vanished' % cls.name)
+        if nf is None:
+            # nothing runs under the storage lock on behalf of this class
+            # then; that the callback is gone is C02.R1/R2's finding, not a
+            # lock-order question
+            R.observe('%s.tpc_finish passes no invalidation callback; '
+                      'no lock-order edges from it' % cls.name)
+            continue
         nf.cls = None
         run(nf, cls, '%s.tpc_finish.<callback>' % cls.name,
             init_held=frozenset({(S_LOCK, 1)}), depth=3)
